@@ -204,6 +204,7 @@ func safeFile(name string) string {
 
 func solveAll(obls []*Obligation, outDir string, timeout time.Duration, thorough bool, jobs int) []*Result {
 	os.MkdirAll(outDir, 0755)
+	clearFacts() // printing and instantiation rebuild terms: no execution-time facts may apply here
 	res := make([]*Result, len(obls))
 	// SMT text must be produced single-threaded (term tables are not thread safe)
 	files := make([]string, len(obls))
